@@ -1026,6 +1026,7 @@ func (e *Engine) addPEGObligations() {
 	e.addPEGTyping(pa)
 	e.languageObligations()
 	e.stickyFlagObligations()
+	e.nativeTableObligations()
 }
 
 // languageObligations (C19): error text is rendered only in the configured language.
@@ -1204,4 +1205,119 @@ func (e *Engine) stickyFlagObligations() {
 	}
 	e.frameObl("frame:ParserData.codeOverflow/sticky", []string{"C07"}, len(bad) == 0 && sites > 0, "",
 		"the instruction-overflow flag is only ever set (every assignment stores the constant true), so an overflow in any code buffer reaches Parse", strings.Join(bad, "; "))
+}
+
+// nativeTableObligations (C01): every native function registered in builtinValues / builtinProto is under a
+// contract whose precondition on the argument count is the arity the table declares for it (FuncInvokeNative
+// compares len(params) with len(Params) before the call), and — for methods — whose precondition on the receiver's
+// type is the prototype table it is registered in (getBindMethod binds Self to the value the method was looked up on).
+func (e *Engine) nativeTableObligations() {
+	info := e.P.Info
+	type reg struct {
+		fn    string
+		arity int
+		proto string
+		pos   token.Pos
+	}
+	var regs []reg
+	byName := map[string]int{} // table name -> arity (entries registered with a nil function, filled in by _init)
+	for _, f := range e.P.Pkg.Syntax {
+		ast.Inspect(f, func(n ast.Node) bool {
+			kv, ok := n.(*ast.KeyValueExpr)
+			if !ok {
+				return true
+			}
+			// builtinProto entries: key is a VMType constant, value a call with the registrations inside
+			proto := ""
+			if id, ok := kv.Key.(*ast.Ident); ok && strings.HasPrefix(id.Name, "VMType") {
+				proto = id.Name
+			}
+			ast.Inspect(kv.Value, func(m ast.Node) bool {
+				cl, ok := m.(*ast.CompositeLit)
+				if !ok || len(cl.Elts) != 5 {
+					return true
+				}
+				if t := info.TypeOf(cl); t == nil || !strings.HasSuffix(e.typeStr(types.Unalias(t)), "NativeFunctionData") {
+					return true
+				}
+				arity := -1
+				if pl, ok := cl.Elts[1].(*ast.CompositeLit); ok {
+					arity = len(pl.Elts)
+				}
+				name := ""
+				if bl, ok := cl.Elts[0].(*ast.BasicLit); ok {
+					name, _ = strconv.Unquote(bl.Value)
+				}
+				if id, ok := cl.Elts[4].(*ast.Ident); ok && id.Name != "nil" {
+					regs = append(regs, reg{fn: id.Name, arity: arity, proto: proto, pos: cl.Pos()})
+				} else if name != "" {
+					byName[name] = arity
+				}
+				return false
+			})
+			return proto == "" // do not descend twice into proto tables
+		})
+	}
+	// _init / _init2: builtinValues["x"] ... NativeFunc = f   and   nnf(&ndf{...}) stored into builtinProto[T]
+	for _, key := range []string{"_init", "_init2"} {
+		fi := e.P.Funcs[key]
+		if fi == nil || fi.Decl == nil {
+			continue
+		}
+		last := ""
+		ast.Inspect(fi.Decl.Body, func(n ast.Node) bool {
+			switch u := n.(type) {
+			case *ast.IndexExpr:
+				if id, ok := u.X.(*ast.Ident); ok && id.Name == "builtinValues" {
+					if bl, ok := u.Index.(*ast.BasicLit); ok {
+						last, _ = strconv.Unquote(bl.Value)
+					}
+				}
+			case *ast.AssignStmt:
+				if len(u.Lhs) == 1 && len(u.Rhs) == 1 {
+					if se, ok := u.Lhs[0].(*ast.SelectorExpr); ok && se.Sel.Name == "NativeFunc" {
+						if id, ok := u.Rhs[0].(*ast.Ident); ok {
+							if a, ok := byName[last]; ok {
+								regs = append(regs, reg{fn: id.Name, arity: a, pos: u.Pos()})
+							}
+						}
+					}
+				}
+			}
+			return true
+		})
+	}
+	sort.Slice(regs, func(i, j int) bool { return regs[i].fn < regs[j].fn })
+	seen := map[string]bool{}
+	for _, r := range regs {
+		if seen[r.fn] {
+			continue
+		}
+		seen[r.fn] = true
+		c := e.P.CF.Contracts[r.fn]
+		var req []string
+		if c != nil {
+			for _, cl := range c.Requires {
+				req = append(req, strings.ReplaceAll(cl.Text, " ", ""))
+			}
+		}
+		all := strings.Join(req, "&&")
+		okA := c != nil && strings.Contains(all, fmt.Sprintf("len(params)==%d", r.arity))
+		detail := ""
+		if !okA {
+			detail = fmt.Sprintf("the table registers %s with %d parameter(s); its contract must require len(params) == %d", r.fn, r.arity, r.arity)
+		}
+		e.frameObl("native:"+r.fn+"/arity", []string{"C01", "C02"}, okA, e.posStr(r.pos),
+			"the contract of native function "+r.fn+" assumes exactly the argument count its table entry declares", detail)
+		if r.proto != "" && r.proto != "VMTypeComputedValue" {
+			okT := c != nil && strings.Contains(all, "this.TypeId=="+r.proto)
+			d2 := ""
+			if !okT {
+				d2 = fmt.Sprintf("%s is a method of prototype %s; its contract must require this.TypeId == %s", r.fn, r.proto, r.proto)
+			}
+			e.frameObl("native:"+r.fn+"/receiver", []string{"C01", "C02"}, okT, e.posStr(r.pos),
+				"the contract of method "+r.fn+" assumes the receiver type of the prototype table it is registered in", d2)
+		}
+	}
+	e.frameObl("native:tables-found", []string{"C01"}, len(seen) >= 20, "", fmt.Sprintf("the native function tables are read (%d functions)", len(seen)), "fewer than 20 registrations found")
 }
